@@ -22,7 +22,9 @@ impl LivenessSender {
                 final(c).queued == (if r is Ok { old(c).queued.push(t) } else { old(c).queued }),
     { unimplemented!() }
 }
-#[verifier::external_body] pub struct Data { opaque: u8 }
+// the ids a DATA submessage carries are kept (arbitrary values; the RESOLVED target reader is a
+// parameter of handle_writer_submessage): a change that decides from them is judged on its text (seed C12e)
+pub struct Data { pub reader_id: EntityId, pub writer_id: EntityId, pub opaque: u8 }
 #[verifier::external_body] pub struct DataFrag { opaque: u8 }
 #[verifier::external_body] pub struct Gap { opaque: u8 }
 #[verifier::external_body] pub struct Heartbeat { opaque: u8 }
